@@ -2,7 +2,7 @@
    projection of a function onto the CFG kernel (used to tie k_build to conv_func on every generated case).
    No proofs. *)
 From Coq Require Import ZArith List String Ascii Bool.
-From XV Require Import Base.Show Gen.C23_tables C23.Model C23.ProofsPhi C23.Whole C23.ProofsWhole.
+From XV Require Import Base.Show Gen.C23_tables C23.Model C23.ProofsPhi C23.Whole C23.ProofsWhole C23.ProofsLit.
 Import ListNotations.
 Local Open Scope list_scope.
 Local Open Scope Z_scope.
@@ -149,11 +149,17 @@ Definition lit_flag (f : dfunc) : Z :=
   | Ok bs, Ok T => if lit_matchesb bs T then 1 else 0
   | _, _ => 2
   end.
+(* the validator ProofsLit.lit_okb of C23_conv_func_validated_all (materialised selects allowed) *)
+Definition lit_ok_flag (f : dfunc) : Z :=
+  match conv_func f, tr_prog f with
+  | Ok bs, Ok T => if lit_okb bs T then 1 else 0
+  | _, _ => 2
+  end.
 
 Definition enc_func (f : dfunc) : sx :=
   match conv_func f with
   | Err e => L [I (-1); I (err_code e)]
-  | Ok bs => L [I 0; L (map enc_block bs); I (kernel_agrees f); I (whole_agrees f); sB (whole_okb f); I (lit_flag f)]
+  | Ok bs => L [I 0; L (map enc_block bs); I (kernel_agrees f); I (whole_agrees f); sB (whole_okb f); I (lit_flag f); I (lit_ok_flag f)]
   end.
 
 (* ---------- running the two machines of C23/Whole.v on concrete inputs (tie of sem_d / sem_i to LLVM's behaviour
